@@ -380,3 +380,13 @@ def wtgrids(
         if end > start:
             output.append(f"{ids[start]:d} THRU {ids[end]:d}, ")''', "wtset loop with break"),
 ]
+
+RECIPES += [
+    ("C13", "neutral", [], B, "        d[tid] = np.vstack([vec[8:-1:2], vec[9:-1:2]]).T\n", "        d[tid] = vec[8:-1].reshape(-1, 2)\n", "rdtabled1 pairs by reshape"),
+    ("C13", "neutral", [], B, "        d[tid] = np.vstack([vec[8:-1:2], vec[9:-1:2]]).T\n",
+     "        last = len(vec) - 1\n        d[tid] = np.vstack([vec[8:last:2], vec[9:last:2]]).T\n", "rdtabled1 explicit end index"),
+    ("C13", "neutral", [], B, "            v = np.hstack((v, np.zeros((np.size(v, 0), 8 - c))))\n", "            v = np.pad(v, ((0, 0), (0, 8 - c)))\n", "rdgrids np.pad"),
+    ("C13", "neutral", [], B, "            v = np.hstack((v, np.zeros((np.size(v, 0), 8 - c))))\n",
+     "            missing = 8 - c\n            v = np.append(v, np.zeros((len(v), missing)), axis=1)\n", "rdgrids np.append"),
+    ("C13", "break", ["C13-R3"], B, "        d[tid] = np.vstack([vec[8:-1:2], vec[9:-1:2]]).T\n", "        d[tid] = vec[9:-1].reshape(-1, 2)\n", "rdtabled1 reshape starting one field late"),
+]
